@@ -83,6 +83,12 @@ def eatOne (rest : Str) (p : Int) (st1 : ScanState) : Str × Int × ScanState :=
       | some (r', n, over) => (r', p + n + over, { st1 with stop := p + n + over })
       | none => (r, p + 1, { st1 with stop := p + 1 })
 
+/-- a property colon (`p1` = position after it): the consumed token becomes the property name -/
+def colonState (st : ScanState) (p1 : Int) : ScanState :=
+  let st1 := if st.propertyStart == -1 then { st with propertyStart := st.start } else st
+  let pe := if st1.stop != -1 then st1.stop else if st1.propertyStart != -1 then st1.propertyDelimiter + 1 else st1.propertyEnd
+  { st1 with propertyEnd := pe, propertyDelimiter := p1 - 1, start := -1, stop := -1 }
+
 /-- `scan(source, callback)` as an event list (callback never stops it). -/
 def scanLoop : Nat → Str → Int → ScanState → List Ev → List Ev × ScanState × Int
   | 0, _, pos, st, acc => (acc, st, pos)
@@ -115,9 +121,7 @@ def scanLoop : Nat → Str → Int → ScanState → List Ev → List Ev × Scan
           let e := eatOne c.1 p2 (if st.start == -1 then { st with start := p2 } else st)
           scanLoop fuel e.1 e.2.1 e.2.2 acc
         else
-          let st1 := if st.propertyStart == -1 then { st with propertyStart := st.start } else st
-          let pe := if st1.stop != -1 then st1.stop else if st1.propertyStart != -1 then st1.propertyDelimiter + 1 else st1.propertyEnd
-          scanLoop fuel xs p1 { st1 with propertyEnd := pe, propertyDelimiter := p1 - 1, start := -1, stop := -1 } acc
+          scanLoop fuel xs p1 (colonState st p1) acc
     else
       let e := eatOne (x :: xs) pos (if st.start == -1 then { st with start := pos } else st)
       scanLoop fuel e.1 e.2.1 e.2.2 acc
